@@ -168,8 +168,9 @@ def clientDecode (bs : Bytes) : Outcome :=
   | .ok v => decodePair v
   | .error _ => .clientError
 
-/-- `Environment._call` against a server in state `st` -/
-def clientCall {σ} (api : Api σ) (st : σ) (r : Req) : σ × Option Exit × Outcome :=
+/-- `Environment._call` against a server in state `st`
+    (irreducible: keeps the elaborator from evaluating `dumps` when it unfolds `session`) -/
+@[irreducible] def clientCall {σ} (api : Api σ) (st : σ) (r : Req) : σ × Option Exit × Outcome :=
   match dumps r.wire with
   | .error e => (st, none, .sendError e)
   | .ok bs =>
